@@ -8,6 +8,7 @@ import (
 	"time"
 
 	"github.com/KevoDB/kevo/pkg/common/log"
+	"github.com/KevoDB/kevo/pkg/verifhook"
 )
 
 // Registry manages transaction lifecycle and connections
@@ -230,14 +231,17 @@ func (r *RegistryImpl) Begin(ctx context.Context, engine interface{}, readOnly b
 			err = fmt.Errorf("nil engine provided to transaction registry")
 		}
 
+		verifhook.At("reg.begin.got")
 		select {
 		case resultCh <- txResult{tx, err}:
 			// Successfully sent result
+			verifhook.At("reg.begin.sent")
 		case <-timeoutCtx.Done():
 			// Context timed out, but try to rollback if we got a transaction
 			if tx != nil {
 				tx.Rollback()
 			}
+			verifhook.At("reg.begin.late")
 		}
 	}()
 
@@ -268,6 +272,7 @@ func (r *RegistryImpl) Begin(ctx context.Context, engine interface{}, readOnly b
 		return txID, nil
 
 	case <-timeoutCtx.Done():
+		verifhook.At("reg.begin.timeout")
 		return "", fmt.Errorf("transaction creation timed out: %w", timeoutCtx.Err())
 	}
 }
